@@ -169,23 +169,31 @@ impl<'a> EdgeIter<'a> {
     { unimplemented!() }
 }
 
-// priority queue (crate priority_queue, dependency): ghost view = the set of queued vertices
+// priority queue (crate priority_queue, dependency; ASSUMED): ghost view = queued vertex -> cost whose ReverseCost is its priority.
+// ReverseCost reverses the order of Cost (proved on the real type by Kani harness c02_reverse_cost_order), so "greater priority" = "smaller cost".
 #[verifier::external_body]
 #[verifier::reject_recursive_types(I)]
 #[verifier::reject_recursive_types(P)]
 pub struct InternalPriorityQueue<I, P> { _p: core::marker::PhantomData<(I, P)> }
 impl InternalPriorityQueue<VertexId, ReverseCost> {
-    pub uninterp spec fn view(&self) -> Set<VertexId>;
-    #[verifier::external_body] pub fn default() -> (r: Self) ensures r@ =~= Set::<VertexId>::empty() { unimplemented!() }
-    #[verifier::external_body] pub fn len(&self) -> (r: usize) ensures r == self@.len() { unimplemented!() }
-    #[verifier::external_body] pub fn push(&mut self, v: VertexId, c: ReverseCost) -> (r: Option<ReverseCost>) ensures final(self)@ =~= old(self)@.insert(v) { unimplemented!() }
-    #[verifier::external_body] pub fn push_increase(&mut self, v: VertexId, c: ReverseCost) -> (r: Option<ReverseCost>) ensures final(self)@ =~= old(self)@.insert(v) { unimplemented!() }
-    #[verifier::external_body] pub fn push_decrease(&mut self, v: VertexId, c: ReverseCost) -> (r: Option<ReverseCost>) ensures final(self)@ =~= old(self)@.insert(v) { unimplemented!() }
+    pub uninterp spec fn view(&self) -> Map<VertexId, Cost>;
+    #[verifier::external_body] pub fn default() -> (r: Self) ensures r@ =~= Map::<VertexId, Cost>::empty() { unimplemented!() }
+    #[verifier::external_body] pub fn len(&self) -> (r: usize) ensures r == self@.dom().len() { unimplemented!() }
+    // push: insert, or replace the priority of a queued item
+    #[verifier::external_body] pub fn push(&mut self, v: VertexId, c: ReverseCost) -> (r: Option<ReverseCost>) ensures final(self)@ =~= old(self)@.insert(v, c.0) { unimplemented!() }
+    // push_increase: insert, or replace the priority only if the new one is GREATER (= the new cost is smaller)
+    #[verifier::external_body] pub fn push_increase(&mut self, v: VertexId, c: ReverseCost) -> (r: Option<ReverseCost>)
+        ensures final(self)@ =~= (if !old(self)@.contains_key(v) || c_lt(c.0, old(self)@[v]) { old(self)@.insert(v, c.0) } else { old(self)@ }) { unimplemented!() }
+    // push_decrease: insert, or replace the priority only if the new one is SMALLER (= the new cost is greater)
+    #[verifier::external_body] pub fn push_decrease(&mut self, v: VertexId, c: ReverseCost) -> (r: Option<ReverseCost>)
+        ensures final(self)@ =~= (if !old(self)@.contains_key(v) || c_lt(old(self)@[v], c.0) { old(self)@.insert(v, c.0) } else { old(self)@ }) { unimplemented!() }
+    // pop: removes an item of greatest priority (= smallest cost)
     #[verifier::external_body]
     pub fn pop(&mut self) -> (r: Option<(VertexId, ReverseCost)>)
-        ensures r is None <==> old(self)@ =~= Set::<VertexId>::empty(),
+        ensures r is None <==> old(self)@.dom() =~= Set::<VertexId>::empty(),
                 r is None ==> final(self)@ == old(self)@,
-                r matches Some(p) ==> old(self)@.contains(p.0) && final(self)@ =~= old(self)@.remove(p.0)
+                r matches Some(p) ==> old(self)@.contains_key(p.0) && p.1.0 == old(self)@[p.0] && final(self)@ =~= old(self)@.remove(p.0)
+                    && forall|w: VertexId| old(self)@.contains_key(w) ==> !c_lt(#[trigger] old(self)@[w], old(self)@[p.0]),
     { unimplemented!() }
 }
 """
@@ -403,13 +411,16 @@ def build(x):
     adv.name_return("r")
     adv.add_spec("""    ensures
         // empty queue + target => the 'no path' error naming source and target; nothing else produces that error
-        (old(cost)@ =~= Set::<VertexId>::empty() && target is Some) <==> r is Err,
+        (old(cost)@.dom() =~= Set::<VertexId>::empty() && target is Some) <==> r is Err,
         r matches Err(e) ==> e == SearchError::NoPathExistsBetweenVertices(source, target->Some_0),
         // empty queue, no target => done;  popped the target => done;  otherwise the popped vertex
-        (old(cost)@ =~= Set::<VertexId>::empty() && target is None) ==> r == Ok::<Option<VertexId>, SearchError>(None) && final(cost)@ =~= old(cost)@,
-        r matches Ok(Some(v)) ==> old(cost)@.contains(v) && final(cost)@ =~= old(cost)@.remove(v) && target != Some(v),
-        (r matches Ok(None) && !(old(cost)@ =~= Set::<VertexId>::empty())) ==> target is Some && old(cost)@.contains(target->Some_0)
-            && final(cost)@ =~= old(cost)@.remove(target->Some_0),""")
+        (old(cost)@.dom() =~= Set::<VertexId>::empty() && target is None) ==> r == Ok::<Option<VertexId>, SearchError>(None) && final(cost)@ =~= old(cost)@,
+        // C02 (queue discipline): the vertex handed to the expansion step is a queued vertex of least f-score
+        r matches Ok(Some(v)) ==> old(cost)@.contains_key(v) && final(cost)@ =~= old(cost)@.remove(v) && target != Some(v)
+            && forall|w: VertexId| old(cost)@.contains_key(w) ==> !c_lt(#[trigger] old(cost)@[w], old(cost)@[v]),
+        (r matches Ok(None) && !(old(cost)@.dom() =~= Set::<VertexId>::empty())) ==> target is Some && old(cost)@.contains_key(target->Some_0)
+            && final(cost)@ =~= old(cost)@.remove(target->Some_0)
+            && forall|w: VertexId| old(cost)@.contains_key(w) ==> !c_lt(#[trigger] old(cost)@[w], old(cost)@[target->Some_0]),""")
     # ---- get_last_traversed_edge_id ----
     gl = x.fn(A + "a_star/a_star_algorithm.rs", "fn get_last_traversed_edge_id")
     gl.name_return("r")
@@ -447,7 +458,8 @@ def build(x):
     ra.body_start("""    broadcast use areal_mul_req;
     proof { vid_key_model(); cost_consts(); }
     let ghost mut expanded: Set<VertexId> = Set::empty();
-    let ghost mut refused: Set<EdgeId> = Set::empty();""")
+    let ghost mut refused: Set<EdgeId> = Set::empty();
+    let ghost mut fs: Map<VertexId, Cost> = Map::empty();   // the f-score written at each vertex' latest label change""")
     INVQ = """            tree_wf(&si.directed_graph, &si.frontier_model, *direction, solution@),
             dom_ok(source, solution@, traversal_costs@),
             pot_ok(source, solution@, traversal_costs@),
@@ -456,8 +468,10 @@ def build(x):
     INV = """            vstd::std_specs::hash::obeys_key_model::<VertexId>(),
             !c_inf(Cost::ZERO), c_val(Cost::ZERO) == 0real, c_inf(Cost::INFINITY),
             target != Some(source),
-            iterations > 0 ==> exists|n: nat| #[trigger] limit_ok(&si.termination_model, n, (iterations - 1) as nat),"""
-    ra.add_loop_spec(1, "        invariant_except_break\n" + INVQ % "costs@" + "\n        invariant\n" + INV + """
+            iterations > 0 ==> exists|n: nat| #[trigger] limit_ok(&si.termination_model, n, (iterations - 1) as nat),
+            // Q (C02): a queued vertex' priority is never worse than the f-score of its latest label
+            forall|v: VertexId| #[trigger] costs@.contains_key(v) ==> fs.contains_key(v) && !c_lt(fs[v], costs@[v]),"""
+    ra.add_loop_spec(1, "        invariant_except_break\n" + INVQ % "costs@.dom()" + "\n        invariant\n" + INV + """
         ensures
             tree_wf(&si.directed_graph, &si.frontier_model, *direction, solution@),
             dom_ok(source, solution@, traversal_costs@),
@@ -465,7 +479,7 @@ def build(x):
             target is None ==> exp_ok(&si.directed_graph, &si.frontier_model, *direction, traversal_costs@, Set::<VertexId>::empty(), expanded, refused),
             target matches Some(tv) ==> solution@.contains_key(tv),""")
     ra.add_loop_spec(2, "            invariant\n" + INV + """
-""" + INVQ % "costs@.insert(current_vertex_id)" + """
+""" + INVQ % "costs@.dom().insert(current_vertex_id)" + """
             iterations < u64::MAX,
             limit_ok(&si.termination_model, tested_size, iterations as nat),
             target != Some(current_vertex_id),
@@ -479,11 +493,12 @@ def build(x):
                 || traversal_costs@.contains_key(key_spec(*direction, edge_of(&si.directed_graph, verif_it.seq()[i]))),
             ensures verif_it.pos() >= verif_it.seq().len(),""")
     # ---- proof hints (add-only) ----
-    EXPQ = "exp_ok(&si.directed_graph, &si.frontier_model, *direction, traversal_costs@, costs@.insert(current_vertex_id), expanded, refused)"
+    EXPQ = "exp_ok(&si.directed_graph, &si.frontier_model, *direction, traversal_costs@, costs@.dom().insert(current_vertex_id), expanded, refused)"
     ra.insert_before(r"let start_time = Instant::now\(\);", """    proof {
         assert(solution@ =~= Map::<VertexId, SearchTreeBranch>::empty());
         assert(traversal_costs@ =~= Map::<VertexId, Cost>::empty().insert(source, Cost::ZERO));
-        assert(costs@ =~= Set::<VertexId>::empty().insert(source));
+        assert(costs@.dom() =~= Set::<VertexId>::empty().insert(source));
+        fs = fs.insert(source, origin_cost);
     }""")
     ra.insert_after(r"\.test\([^;]*\)\?;", """
         // C10.3: the limit test is made on (tree size, turn number) at the top of every turn, before the pop
@@ -492,9 +507,9 @@ def build(x):
         let ghost tested_size = solution@.len();
         proof {
             // C05 (only if): an exhausted queue with a target => the labelled set is closed and does not contain the target
-            if costs@ =~= Set::<VertexId>::empty() && target is Some {
+            if costs@.dom() =~= Set::<VertexId>::empty() && target is Some {
                 let tv = target->Some_0;
-                if traversal_costs@.contains_key(tv) { assert(expanded.contains(tv) || costs@.contains(tv)); assert(false); }
+                if traversal_costs@.contains_key(tv) { assert(expanded.contains(tv) || costs@.dom().contains(tv)); assert(false); }
                 assert(search_inv(si, *direction, source, Some(tv), solution@, traversal_costs@, Set::<VertexId>::empty(), expanded, refused));
             }
         }""")
@@ -508,8 +523,19 @@ def build(x):
             assert(target == Some(source));
         }""")
     ra.insert_after(r"if !valid_frontier \{", "                proof { refused = refused.insert(*edge_id); assert(" + EXPQ + "); }")
-    ra.insert_before(r"traversal_costs\.insert\(key_vertex_id, tentative_gscore\);", "                let ghost t_old = solution@; let ghost l_old = traversal_costs@; let ghost q_old = costs@;")
-    ra.insert_after(r"costs\.push_increase\(key_vertex_id, f_score_value\.into\(\)\);", """                proof {
+    ra.insert_before(r"traversal_costs\.insert\(key_vertex_id, tentative_gscore\);", "                let ghost t_old = solution@; let ghost l_old = traversal_costs@; let ghost q_old = costs@.dom();")
+    ra.insert_before(r"let f_score_value = tentative_gscore \+ dst_h_cost;", """                // C02 (relaxation step): a label is replaced only by a strictly smaller cost-so-far, computed from the near vertex' label plus the edge's total cost
+                assert(c_lt(tentative_gscore, existing_gscore));
+                assert(!c_inf(tentative_gscore) && c_val(tentative_gscore) == c_val(l_old[terminal_vertex_id]) + c_val(et_cost(solution@[key_vertex_id].edge_traversal)));
+                assert(l_old.contains_key(key_vertex_id) ==> c_val(tentative_gscore) < c_val(l_old[key_vertex_id]));""")
+    ra.insert_after(r"let f_score_value = tentative_gscore \+ dst_h_cost;", """                // the vertex is re-queued with f = g + (weighted) estimate
+                assert(c_inf(f_score_value) == c_inf(dst_h_cost) && (!c_inf(f_score_value) ==> c_val(f_score_value) == c_val(tentative_gscore) + c_val(dst_h_cost)));
+                let ghost cq_old = costs@;""")
+    ra.insert_after(r"costs\.push\w*\(key_vertex_id, [^;]*\);", """                proof {
+                    fs = fs.insert(key_vertex_id, f_score_value);
+                    assert forall|v: VertexId| #[trigger] costs@.contains_key(v) implies fs.contains_key(v) && !c_lt(fs[v], costs@[v]) by {
+                        if v != key_vertex_id { assert(cq_old.contains_key(v)); assert(costs@[v] == cq_old[v]); }
+                    }
                     let g = &si.directed_graph; let fm = &si.frontier_model;
                     let lastg: Option<Edge> = match last_edge { Some(x) => Some(*x), None => None };
                     assert(permitted(fm, *e, current_state@, lastg));
@@ -528,7 +554,7 @@ def build(x):
                         &&& exists|s: Seq<StateVar>, last: Option<Edge>| #[trigger] permitted(fm, e, s, last) }) by {
                         if k == key_vertex_id { } else { assert(t_old.contains_key(k)); assert(solution@[k] == t_old[k]); }
                     }
-                    let qn = costs@.insert(current_vertex_id); let qo = q_old.insert(current_vertex_id);
+                    let qn = costs@.dom().insert(current_vertex_id); let qo = q_old.insert(current_vertex_id);
                     assert(traversal_costs@ =~= l_old.insert(key_vertex_id, tentative_gscore));
                     assert(qn =~= qo.insert(key_vertex_id));
                     assert forall|v: VertexId| #[trigger] traversal_costs@.contains_key(v) implies expanded.contains(v) || qn.contains(v) by {
@@ -545,12 +571,12 @@ def build(x):
                 }""")
     ra.insert_before(r"iterations \+= 1;", """        proof {
             let g = &si.directed_graph;
-            let e_old = expanded; let qc = costs@.insert(current_vertex_id);
+            let e_old = expanded; let qc = costs@.dom().insert(current_vertex_id);
             expanded = expanded.insert(current_vertex_id);
-            assert forall|v: VertexId| #[trigger] traversal_costs@.contains_key(v) implies expanded.contains(v) || costs@.contains(v) by {
+            assert forall|v: VertexId| #[trigger] traversal_costs@.contains_key(v) implies expanded.contains(v) || costs@.dom().contains(v) by {
                 if v != current_vertex_id { assert(e_old.contains(v) || qc.contains(v)); }
             }
-            assert forall|v: VertexId| #[trigger] costs@.contains(v) implies traversal_costs@.contains_key(v) by { assert(qc.contains(v)); }
+            assert forall|v: VertexId| #[trigger] costs@.dom().contains(v) implies traversal_costs@.contains_key(v) by { assert(qc.contains(v)); }
             assert forall|v: VertexId, i: int| expanded.contains(v) && 0 <= i < incident(g, *direction, v).len() implies
                 refused.contains(#[trigger] incident(g, *direction, v)[i]) || traversal_costs@.contains_key(key_spec(*direction, edge_of(g, incident(g, *direction, v)[i]))) by {
                 if v == current_vertex_id { assert(incident(g, *direction, v) == verif_it.seq()); assert(0 <= i < verif_it.pos()); }
